@@ -169,7 +169,14 @@ def main():
                 "        fileobj.read(len(self.prefix)); return gzip.GzipFile(fileobj=fileobj, mode='rb')\n"
                 "register_compressor('late', W())\n"
                 "b = io.BytesIO(); joblib.dump([1, 2, 3], b, compress=('late', 3)); b.seek(0)\n"
-                "assert joblib.load(b) == [1, 2, 3]\n")
+                "assert joblib.load(b) == [1, 2, 3]\n"
+                # ... and RE-registered (force=True: the number of compressors stays the same) with a still longer magic number
+                "class W2(W):\n"
+                "    def __init__(self):\n"
+                "        CompressorWrapper.__init__(self, obj=None, prefix=b'LATECOMPRESSOR-SECOND-EDITION', extension='.late')\n"
+                "register_compressor('late', W2(), force=True)\n"
+                "b = io.BytesIO(); joblib.dump([4, 5], b, compress=('late', 3)); b.seek(0)\n"
+                "assert joblib.load(b) == [4, 5]\n")
         cases += 1
         pr = subprocess.run([sys.executable, "-c", code], capture_output=True, text=True, timeout=120)
         if pr.returncode != 0:
